@@ -72,6 +72,37 @@ func runRoute(c *Ctx) {
 			c.Note(fmt.Sprintf("shape %d", si), fmt.Sprintf("%s: %d spec assignments over kinds %v; every target x every alias combination x per-level argvs %v", shapeText(shape), ntrees, ks, routeUniverse))
 		}
 	}
+	// levels that require an option and have no positional (kind 14), mixed with empty levels
+	for si, shape := range treeShapes(c.Thorough()) {
+		slots := numberSlots(shape)
+		ks := []int{0, 14}
+		if len(slots) <= 4 {
+			ks = []int{0, 3, 14}
+		}
+		ntrees := 0
+		kindAssignments(len(slots), ks, func(assign []int) {
+			ntrees++
+			idx++
+			if !c.Mine(idx) || !c.Begin("route-required-option", fmt.Sprint(si), fmt.Sprint(assign)) {
+				return
+			}
+			as := append([]int{}, assign...)
+			enumPaths(shape, func(target *tnode, names []string) {
+				path := pathNodes(target)
+				per := make([][][]string, len(path))
+				for i, n := range path {
+					per[i] = levelArgvs(n, routeUniverse)
+				}
+				enumInvocations(path, names, per, func(args []string, own [][]string) {
+					c.Beat()
+					routeCase(c, si, shape, as, args)
+				})
+			})
+		})
+		if c.Shard == 0 {
+			c.Note(fmt.Sprintf("shape %d, required option", si), fmt.Sprintf("%s: %d spec assignments over kinds %v (14 = spec `-f`: a required option and no positional); same targets, aliases and per-level argvs", shapeText(shape), ntrees, ks))
+		}
+	}
 	versionedRoutes(c, &idx)
 	if c.Shard == 0 && c.Begin("route-odd-names") {
 		oddNames(c)
@@ -81,7 +112,8 @@ func runRoute(c *Ctx) {
 // oddNames: command names and aliases are the blank-separated words of the declaration, byte for byte: a comma, a
 // dot, an equals sign or a non-ASCII letter is part of the name; fragments of a name address nothing.
 func oddNames(c *Ctx) {
-	decls := []string{"csv,tsv tab", "a.b", "x=y", "ünï u", "UP", "c1c", "c1"}
+	// "dd  ee" (two blanks) and "tt\tuu" (a tab) declare two names each: any run of blanks separates names
+	decls := []string{"csv,tsv tab", "a.b", "x=y", "ünï u", "UP", "c1c", "c1", "dd  ee", "tt\tuu"}
 	type probe struct {
 		args []string
 		want string // name list of the command whose Action must run, "" = usage error
@@ -92,7 +124,7 @@ func oddNames(c *Ctx) {
 			probes = append(probes, probe{[]string{alias}, d}, probe{[]string{"grp", alias, "v"}, "grp/" + d})
 		}
 	}
-	for _, frag := range []string{"csv", "tsv", "a", "b", "x", "y", "up", "c", "c1c1", "ün"} {
+	for _, frag := range []string{"csv", "tsv", "a", "b", "x", "y", "up", "c", "c1c1", "ün", "", " ", "tt\tuu", "dd  ee", "d", "uu\t"} {
 		probes = append(probes, probe{[]string{frag}, ""}, probe{[]string{"grp", frag, "v"}, ""})
 	}
 	for _, p := range probes {
